@@ -273,6 +273,11 @@ func (g *Gen) Case(o CaseOpts) *Case {
 		attr.Set("command", gm)
 		attr.Set("originatingCommand", cmd)
 		g.metrics(attr)
+		// what the server adds to every batch of a cursor
+		attr.Set("cursorid", KeepN("8450170943150897632"))
+		if g.chance(0.15) {
+			attr.Set("cursorExhausted", keep(BoolN(true)))
+		}
 	case "cmd":
 		line.Set("s", KeepS("W"))
 		if o.Msg == "" {
